@@ -16,6 +16,58 @@ import (
 
 func init() { register("C13", "exploration", c13) }
 
+// boundaryCases: a fixed list of small grammars around the ends of the code space, with every input of up to two
+// characters over the boundary alphabet (and a few longer ones): terminals whose bounds are U+0000 or U+10FFFF tried in
+// the middle, at the last character and AT END OF INPUT (where the generated parser reads its end sentinel, a value
+// just outside the code space), alone, after a literal, under * and as one alternative of a choice (-switch).
+func boundaryCases(firstID int) []*gcase {
+	const max = 0x10FFFF
+	neg := func(lo, hi rune) *gram.Expr {
+		return &gram.Expr{K: gram.KClass, Neg: true, Items: []gram.Item{{Lo: lo, Hi: hi}}}
+	}
+	terms := []*gram.Expr{
+		gram.Rng(0, 'a'), gram.Rng('x', max), gram.Rng(0, max), gram.Rng(max-1, max), gram.Rng(0, 0), gram.Rng(max, max),
+		gram.Lit(string(rune(max))), gram.Lit("\x00"), gram.Lit("a" + string(rune(max))),
+		neg(0, 'a'), neg('x', max), neg(1, max-1), gram.Dot(),
+		gram.Cls(gram.Item{Lo: 0, Hi: 0}, gram.Item{Lo: 'x', Hi: max}),
+	}
+	// (no case-insensitive class here: what [[x-\U0010FFFF]] means for letters below 'x' is not defined by the
+	// documentation — peg matches the ranges of the upper-cased and of the lower-cased bounds — so the generators
+	// keep case-insensitive ranges between letters of one case, see gram.ciItem)
+	alpha := []rune{0, 'a', 'x', max, max - 1, 'é', 0xFFFD}
+	var inputs []string
+	inputs = append(inputs, "")
+	for _, a := range alpha {
+		inputs = append(inputs, string(a))
+		for _, b := range alpha {
+			inputs = append(inputs, string([]rune{a, b}))
+		}
+	}
+	inputs = append(inputs, "a\xff", "\xf4\x90\x80\x80", "a\xf4\x8f\xbf", string([]rune{'a', max, max, 0, 'a'}), string([]rune{max, 'a', max}), string([]rune{'a', 'a', 'a', max}))
+	var out []*gcase
+	for _, t := range terms {
+		shapes := []*gram.Expr{
+			gram.Seq(gram.Lit("a"), t),
+			gram.Seq(gram.Un(gram.KStar, t), gram.Un(gram.KNot, gram.Dot())),
+			gram.Seq(gram.Un(gram.KPlus, gram.Alt(gram.Seq(gram.Lit("a"), gram.Un(gram.KQuery, gram.Lit("a"))), t, gram.Lit("\u00e9"))), gram.Un(gram.KNot, gram.Dot())),
+			gram.Seq(gram.Un(gram.KCapture, gram.Un(gram.KQuery, gram.Lit("a"))), gram.Un(gram.KNot, t), gram.Un(gram.KQuery, gram.Dot())),
+		}
+		for _, sh := range shapes {
+			g := &gram.Grammar{Rules: []*gram.Rule{{Name: "R0", E: sh}}}
+			if !g.WellFormed() {
+				continue
+			}
+			g.Number()
+			cs := &gcase{id: firstID + len(out), g: g}
+			for _, in := range inputs {
+				cs.entries = append(cs.entries, entry{-1, in})
+			}
+			out = append(out, cs)
+		}
+	}
+	return out
+}
+
 func c13(c *ctx) {
 	r := rand.New(rand.NewSource(c.env.Seed))
 	// ---------- part 1: generated grammars (reference interpreter as oracle), -race build (implies checkptr) ----------
@@ -55,10 +107,12 @@ func c13(c *ctx) {
 		}
 		cases = append(cases, cs)
 	}
+	cases = append(cases, boundaryCases(len(cases))...)
+	c.run.Count("code_space_boundary_grammars", len(boundaryCases(0)))
 	cfgs := []config{{name: "memo", v: vPlain, memo: true}, {name: "nomemo", v: vPlain}, {name: "both", v: vBoth, memo: true}}
 	race := c.env.Tier == "thorough" || os.Getenv("VERIF_C13_RACE") != "" // generated parsers contain no unsafe code: an out-of-range access is a panic, which the
 	// monitor catches; the race/checkptr build is therefore only used in the thorough tier
-	f := &family{c: c, tag: "c13", race: race, configs: cfgs, noexec: true, refLimit: 3000000, maxDepth: 200, batch: 72, history: []string{"memo"}}
+	f := &family{c: c, tag: "c13", race: race, configs: cfgs, refLimit: 3000000, maxDepth: 200, batch: 72, history: []string{"memo"}}
 	f.judge = func(cs *gcase, e entry, it *ref.Interp, refOK bool, refEnd int, res map[string]*corpus.Res) {
 		id := report.Hash(cs.text, e.input)
 		for _, cf := range cfgs {
@@ -93,6 +147,11 @@ func c13(c *ctx) {
 					c.run.Violate("offsets:"+key, "reported offsets do not index the rune sequence: "+inv, w())
 				} else if tokStrings(rr.Toks) != refTokStrings(it.Toks) {
 					c.run.Violate("tokens:"+key, "tokens do not slice the rune sequence into what they matched", w())
+				} else if got, want := traceString(rr.Trace), refTraceString(it.ActionTrace()); got != want {
+					// Execute() slices the buffer by the capture tokens: the text it hands to actions is that slice of the RUNE sequence
+					c.run.Violate("text:"+key, fmt.Sprintf("Execute() handed actions %s; slicing the rune sequence by the capture tokens gives %s", got, want), w())
+				} else if len(rr.Trace) > 0 {
+					c.run.Count("executions_with_action_text_checked", 1)
 				}
 			} else if rr.Max != nil && (rr.Max.B > rr.Max.E || int(rr.Max.E) > rr.NRunes) {
 				c.run.Violate("errtoken:"+key, fmt.Sprintf("error token %s outside the input of %d runes", rr.Max, rr.NRunes), w())
